@@ -52,6 +52,7 @@ func (c *ConfigReceiver) Derive(adjust curve.Scalar, newChainKey []byte) (*Confi
 		Setup:       c.Setup,
 		SecretShare: c.SecretShare.Curve().NewScalar().Set(c.SecretShare).Add(adjust),
 		Public:      c.Public.Add(adjustG),
+		ChainKey:    newChainKey,
 	}, nil
 }
 
@@ -159,10 +160,13 @@ func (c *ConfigSender) Derive(adjust curve.Scalar, newChainKey []byte) (*ConfigS
 
 	adjustG := adjust.ActOnBase()
 
+	// The secret key is the sum of the two shares, so the adjustment is applied
+	// to exactly one of them: the receiver's (see ConfigReceiver.Derive).
 	return &ConfigSender{
 		Setup:       c.Setup,
-		SecretShare: c.SecretShare.Curve().NewScalar().Set(c.SecretShare).Add(adjust),
+		SecretShare: c.SecretShare.Curve().NewScalar().Set(c.SecretShare),
 		Public:      c.Public.Add(adjustG),
+		ChainKey:    newChainKey,
 	}, nil
 }
 
